@@ -45,7 +45,8 @@ Inductive read :=
 | RSize
 | RHeight
 | RIter (start stop : option bytes) (incl asc : bool)
-| RHash.
+| RHash
+| RTouch.
 
 Inductive op :=
 | OSet (k v : bytes)
@@ -101,6 +102,7 @@ Section Machine.
     | RHeight => XInt (match t with None => 0 | Some n => height n end)
     | RIter start stop incl asc => XKvs (range_spec (oelems t) start stop incl asc)
     | RHash => XBytes (Some (root_hash H wv t))
+    | RTouch => XOk
     end.
 
   Definition do_set (s : mstate) (k v : bytes) : mstate * out :=
